@@ -607,10 +607,29 @@ func (e *Exec) ufConstraints(s *Script) {
 					differ := tb.False()
 					for k := range a.seqs {
 						qa, qb := a.seqs[k], b.seqs[k]
-						w := tb.Var(fmt.Sprintf("ufw_%s_%d_%d_%d", n, i, j, k), 64)
 						d := tb.Not(tb.Cmp(OEq, qa.len, qb.len))
-						in := tb.And(tb.Cmp(OSle, tb.K(64, 0), w), tb.Cmp(OSlt, w, qa.len))
-						d = tb.Or(d, tb.And(in, tb.Not(tb.Cmp(OEq, e.seqByte(qa, w), e.seqByte(qb, w)))))
+						if d.isTrue() {
+							differ = d
+							break
+						}
+						max := qa.len.rhi
+						if qb.len.rhi < max {
+							max = qb.len.rhi
+						}
+						if max <= 192 {
+							// short sequences: position by position (reads at concrete indices fold syntactically)
+							for p := uint64(0); p < max && !d.isTrue(); p++ {
+								kp := tb.K(64, p)
+								ne := tb.Not(tb.Cmp(OEq, e.seqByte(qa, kp), e.seqByte(qb, kp)))
+								if !ne.isFalse() {
+									d = tb.Or(d, tb.And(tb.Cmp(OUlt, kp, qa.len), ne))
+								}
+							}
+						} else {
+							w := tb.Var(fmt.Sprintf("ufw_%s_%d_%d_%d", n, i, j, k), 64)
+							in := tb.And(tb.Cmp(OSle, tb.K(64, 0), w), tb.Cmp(OSlt, w, qa.len))
+							d = tb.Or(d, tb.And(in, tb.Not(tb.Cmp(OEq, e.seqByte(qa, w), e.seqByte(qb, w)))))
+						}
 						differ = tb.Or(differ, d)
 					}
 					s.Assert(tb.Or(differ, tb.Cmp(OEq, a.out, b.out)))
